@@ -16,7 +16,7 @@ SHAPES = ["head_at_limit", "head_unterminated", "cl_at_limit", "chunked_at_limit
 EVIDENCE = {
     "rule": "one connection; input shape drawn from " + ", ".join(SHAPES) + "; max_request_header_size in {16..262144}, "
             "max_request_body_size in {8..1 GiB}, sizes placed at limit-2..limit+2, recv_bytes in {1,7,64,8192}, with and "
-            "without a pipelined follower in the same read, lookahead 0, further bytes keep arriving after the offending "
+            "without a pipelined follower in the same read, lookahead 0, send_bytes 1 or 18000, refused requests with and without Expect: 100-continue, further bytes keep arriving after the offending "
             "message so that continued consumption would be seen; distinct = distinct history digest; non-trivial = the "
             "server refused the input (error response) or the limit boundary was within 2 bytes",
     "real": common.REAL, "stub": common.STUB,
@@ -50,6 +50,8 @@ def gen(W):
     sc["cut"] = W.draw(400)
     sc["extra_after"] = W.choice([0, 300, 5000])
     sc["seed"] = W.draw(1 << 20)
+    sc["send_bytes"] = W.choice([1, 18000])   # with 18000 the error response is left for the I/O thread to send
+    sc["expect"] = W.chance(0.3)              # refused-at-the-head requests that asked for 100-continue
     # a quarter of the runs are scheduled adversarially (2 workers, random walk / PCT over source lines):
     # 'zero application calls' must not depend on the worker being slower than the reader
     sc["threads"] = 1
@@ -141,7 +143,9 @@ def build(sc):
         if B > 100000:
             B = sc["max_body"] = 1000
         n = max(0, B + d)
-        stream = b"POST /b HTTP/1.1\r\nHost: h\r\nContent-Length: %d\r\n\r\n" % n + b"z" * n
+        ex = b"Expect: 100-continue\r\n" if (sc.get("expect") and n >= B and n > 0) else b""
+        stream = b"POST /b HTTP/1.1\r\nHost: h\r\n" + ex + b"Content-Length: %d\r\n\r\n" % n + b"z" * n
+        exp["no_interim"] = bool(ex)  # refused on its header block: nothing but the error response may be sent
         exp["must_refuse"] = n >= B and n > 0
         exp["statuses"] = {413}
         exp["accept_path"] = "/b"
@@ -165,7 +169,9 @@ def build(sc):
             exp["cross_pos"] = len(stream) - len(enc) + B
     elif shape == "cl_huge_digits":
         digits = [b"9" * 5000, b"1" + b"0" * 4400, b"9" * 25, b"18446744073709551616"][sc["seed"] % 4]
-        stream = b"POST /x HTTP/1.1\r\nHost: h\r\nContent-Length: " + digits + b"\r\n\r\n" + b"z" * 50
+        ex = b"Expect: 100-continue\r\n" if sc.get("expect") else b""
+        stream = b"POST /x HTTP/1.1\r\nHost: h\r\n" + ex + b"Content-Length: " + digits + b"\r\n\r\n" + b"z" * 50
+        exp["no_interim"] = bool(ex)
         exp["must_refuse"] = True
         exp["statuses"] = {400, 413}
     elif shape == "csize_huge_digits":
@@ -206,6 +212,7 @@ def build(sc):
         exp["statuses"] = {400}
         exp["anything"] = True
         exp["timed"] = True
+        sc["recv_bytes"] = 8192
     elif shape == "ows_flood_bad_tail":
         # a field line made of the name, tens of thousands of blanks and one octet that is not allowed (in the head
         # or in a trailer): optional-whitespace matched twice around an empty value makes a backtracking pattern
@@ -278,7 +285,7 @@ def run_one(tapes, tier, scenario=None):
         exp["may_wait"] = True
     knobs = dict(threads=sc.get("threads", 1), channel_request_lookahead=0, recv_bytes=sc["recv_bytes"],
                  max_request_header_size=sc["max_header"], max_request_body_size=sc["max_body"],
-                 inbuf_overflow=sc["inbuf_overflow"], clear_untrusted_proxy_headers=False)
+                 inbuf_overflow=sc["inbuf_overflow"], clear_untrusted_proxy_headers=False, send_bytes=sc.get("send_bytes", 1))
     sim = Simulation(tapes, knobs=knobs, net=NetConfig(), sched=sc.get("sched", {"kind": "rtb"}), trace=sc.get("trace", "none"),
                      horizon=60.0, step_cap=400000)
     k = sim.k
@@ -296,7 +303,9 @@ def run_one(tapes, tier, scenario=None):
     # ---------------------------------------------------------------- oracle
     s = sim.conns.get(0)
     wire = bytes(s.wire)
-    if t_wall > 3.0 and (len(stream) < 20000 or sc["shape"] == "ows_flood_bad_tail"):
+    if t_wall > 3.0 and exp.get("timed"):
+        # (only for the shapes built to expose super-linear matching, which arrive in at most a handful of reads:
+        # such a run normally costs a few milliseconds of CPU, so the threshold is generous even on a loaded machine)
         # (measured CPU time, hence the generous threshold: such a run normally takes a few milliseconds)
         res.v("hang", "slow_parse:" + sc["shape"], "handling %d bytes of input took %.1f s of CPU time: %r" % (len(stream), t_wall, stream[-80:]))
     rs, probs = parse_stream(wire, ["GET"] * 6, s.closed)
@@ -327,6 +336,8 @@ def run_one(tapes, tier, scenario=None):
                 r.status, sorted(exp["statuses"]), sc["max_header"], sc["max_body"], sc["d"]))
         if not r.complete or r.problems:
             res.v("error_response_malformed", shape, "error response %d incomplete or malformed: %r %r" % (r.status, r.problems, probs))
+        if exp.get("no_interim") and any(x.interim for x in rs):
+            res.v("more_than_one_response", shape + ":interim", "an interim response was sent for a request that is refused on its header block: %r" % (wire[:60],))
         if len(finals) > 1:
             res.v("more_than_one_response", shape, "further response(s) after the error response: %r" % ([x.status for x in finals[1:]],))
         if probs and probs[0][0] not in ("leftover",):
